@@ -391,11 +391,17 @@ class Gen:
                 return m.start()
         return None
 
-    def do_item(self, head):
+    def do_item(self, head, widen=False):
         mod, kind, name = [p.strip() for p in head.split('|')]
         it = self.src.find_item(mod, kind, name)
         start = self.lineno()
-        self.emit(strip_attrs(strip_docs(it.text)))
+        text = strip_attrs(strip_docs(it.text))
+        if widen:
+            # R10: visibility only
+            text = re.sub(r'^(\s*)(struct|enum|trait|const)\b', r'\1pub \2', text, count=1)
+            text = re.sub(r'^(\s*pub const \w+\s*:\s*)&str\b', r"\1&'static str", text)
+            text = re.sub(r'^(\s*)(?!pub\b)([a-z_][A-Za-z0-9_]*\s*:)', r'\1pub \2', text, flags=re.M)
+        self.emit(text)
         self.meta['fns'].append({'id': 'item.%s.%s' % (mod, name), 'anchor': head, 'src_mod': mod, 'sha': it.sha(),
                                  'rules': [], 'lines': [start, self.lineno() - 1], 'module': '::'.join(self.cur_mod_stack), 'mode': 'item'})
 
@@ -421,6 +427,13 @@ class Gen:
                 except LostAnchor as e:
                     raise LostAnchor('%s:%d: %s' % (name, i + 1, e))
                 i = j
+                continue
+            if s.startswith('//@item-pub '):
+                try:
+                    self.do_item(s[12:], widen=True)
+                except LostAnchor as e:
+                    raise LostAnchor('%s:%d: %s' % (name, i + 1, e))
+                i += 1
                 continue
             if s.startswith('//@item '):
                 try:
